@@ -171,6 +171,45 @@ def malformed(rep, tier):
                 replay=dict(reproduced=True, detail=f'{f[0]} with hint {f[1]}: {f[2]}'), replay_script=f'print({f!r}); sys.exit(1)\n')
     rep.bounded.append(dict(kind='malformed-hint generator through the public API (bounded stand-in, NOT counted as proved)', hints=len(bad), cases=cases, failing=len(fails)))
 
+LATE_SRC = """
+import sys, typing, types, warnings
+from beartype import beartype
+from beartype.roar import BeartypeException
+REFERENTS = {'a list hint': 'typing.List[int]', 'a literal': 'typing.Literal[1]', 'a number': '42', 'a union': 'int | str', 'a class': 'int', 'a generic class': 'list', 'a string': "'int'", 'a subscripted builtin': 'dict[str, int]'}
+FORMS = ["'Later'", "type['Later']", "list['Later']", "typing.Optional['Later']", "dict[str, 'Later']", "typing.Type['Later']"]
+ARGS = [1, int, [1], None, {'a': 1}, 'x']
+bad = []
+n = 0
+for rname, rsrc in REFERENTS.items():
+    for form in FORMS:
+        m = types.ModuleType('c11late%d' % n); n += 1; sys.modules[m.__name__] = m
+        m.__dict__.update(typing=typing, beartype=beartype)
+        try: exec(f"@beartype\\ndef f(x: {form}): return x\\n".replace('\\\\n', chr(10)), m.__dict__)
+        except BeartypeException: continue
+        except Exception as e: bad.append((form, rname, 'decoration', type(e).__name__ + ': ' + str(e)[:80])); continue
+        exec('Later = ' + rsrc, m.__dict__)          # the name becomes resolvable only now
+        for arg in ARGS:
+            for call in range(3):                    # the SAME decorated callable, called repeatedly: later calls are answered from the proxy's tables
+                with warnings.catch_warnings():
+                    warnings.simplefilter('ignore')
+                    try: m.f(arg)
+                    except BeartypeException: pass
+                    except Exception as e: bad.append((form, rname, f'call #{call} with {arg!r}', type(e).__name__ + ': ' + str(e)[:80]))
+print(bad[:6]); print(len(bad))
+sys.exit(1 if bad else 0)
+"""
+def late_refs(rep):
+    """bounded: forward references that become resolvable after decoration - to hints, non-hints, classes - through repeated calls"""
+    import subprocess, sys
+    from pyvc import VERIF, REPO
+    src = f"import sys, os\nos.environ['VERIF_REPO'] = {REPO!r}\nsys.path.insert(0, {VERIF!r})\nimport pyvc; pyvc.use_repo()\n" + LATE_SRC
+    p = subprocess.run([sys.executable, '-c', src], capture_output=True, text=True, timeout=300)
+    if p.returncode not in (0, 1) or (p.returncode == 1 and not p.stdout.strip().startswith('[')): rep.error('C11 late_refs harness: ' + (p.stdout + p.stderr)[-600:]); return
+    if p.returncode == 1:
+        rep.add('C11.late_refs.bounded.only_beartype_exceptions', 'refuted', backend='runtime-contract', where=p.stdout.strip()[-400:], solver_output='bounded run-time contract (not a proof)',
+                replay=dict(reproduced=True, detail=p.stdout.strip()[-400:]), replay_script=("os.environ['VERIF_REPO'] = %r\nimport pyvc; pyvc.use_repo()\n" % REPO) + LATE_SRC)
+    rep.bounded.append(dict(kind='late-bound forward references x repeated calls: only beartype exceptions escape (bounded stand-in, NOT counted as proved)', scenarios=48 * 6 * 3, failing=int(p.returncode == 1)))
+
 def _decorate(hint, where):
     from beartype import beartype
     if where == 'param':
@@ -193,7 +232,13 @@ def main(tier, seed):
     except Exception: rep.error('C11 memoiser: ' + traceback.format_exc()[-1500:])
     try: malformed(rep, tier)
     except Exception: rep.error('C11 malformed: ' + traceback.format_exc()[-2000:])
-    rep.functions = ['beartype/_util/error/utilerrraise.py:reraise_exception_placeholder (mode F)', 'callable_cached.<locals>._callable_cached unhashable path (mode F)', f'{rep.extra.get("raise_sites")} raise sites in {PKGS} (structural)']
+    try: late_refs(rep)
+    except Exception: rep.error('C11 late_refs: ' + traceback.format_exc()[-2000:])
+    try:
+        from props import c14
+        c14.fwdref_cache(rep, 'C11')
+    except Exception: rep.error('C11 fwdref_cache: ' + traceback.format_exc()[-1500:])
+    rep.functions = ['beartype/_util/error/utilerrraise.py:reraise_exception_placeholder (mode F)', 'BeartypeForwardRefMeta.__resolved_hint_beartype__ / __resolved_type_beartype__ (mode F: a raising getter leaves nothing cached)', 'callable_cached.<locals>._callable_cached unhashable path (mode F)', f'{rep.extra.get("raise_sites")} raise sites in {PKGS} (structural)']
     rep.trusted = ['pyvc', 'z3', 'BaseException.with_traceback returns self']
     rep.assumptions = ['NOT claimed: that no implicit TypeError/AttributeError/KeyError/RecursionError can escape for an arbitrary object passed as a hint (whole-call-graph exception flow is out of reach of per-function contracts); only the bounded generator of malformed hints explores that',
                        f'{rep.extra.get("internal_underscore_raise_sites")} raise sites of internal underscore-prefixed beartype exceptions are assumed unreachable',
